@@ -23,6 +23,7 @@ REPO_SRC = os.environ.get('VERIF_REPO', '/repo') + '/src'
 WALL_TIMEOUT = float(os.environ.get('VERIF_WALL_TIMEOUT', '20'))
 _real_monotonic = _time_mod.monotonic
 _PRELOADED = False
+COVERAGE = bool(os.environ.get('VERIF_COVERAGE'))     # read before the simulated environment replaces os.environ
 
 
 def preload():
@@ -119,6 +120,20 @@ def _child_main(world, wfd):
         mon.register_callback(TOOL, E.PY_START, tick)
         mon.register_callback(TOOL, E.JUMP, tick)
         mon.set_events(TOOL, E.PY_START | E.JUMP)
+        if COVERAGE:
+            # reach measurement (tools_coverage.py): which lines of the package did this run execute
+            covered = set()
+            src = os.path.realpath(REPO_SRC)
+
+            def on_line(code, line):
+                fn = code.co_filename
+                if fn.startswith(src):
+                    covered.add((fn[len(src) + 1:], line))
+                return mon.DISABLE
+            mon.use_tool_id(5, 'simcov')
+            mon.register_callback(5, E.LINE, on_line)
+            mon.set_events(5, E.LINE)
+            result['covered'] = covered
         try:
             import bespokeasm.__main__ as M
             rc = M.entry_point()
